@@ -98,6 +98,10 @@ class Run(object):
         self.kind = kind
         io = BufferedIO(formatter=_formatter(kind != "plain"))
         io.set_verbosity(cfg.get("verbosity", 0))
+        if kind in ("ansi", "plain"):
+            # the bar draws on the ERROR output: the standard output of the same I/O is of the opposite kind (as with
+            # `cmd 2> log` or `cmd | less`), which must not matter
+            io.output.set_formatter(_formatter(kind == "plain"))
         self.io = io
         target = io
         self.header = None
